@@ -676,7 +676,7 @@ func (fr *frame) applySpec(spec *FuncSpec, name string, pnames []string, args []
 		f.assume(st, v, "ensures of "+sn+": "+c.Src)
 		assumedEnsures = true
 	}
-	if assumedEnsures && f.e.thorough && !f.dry && !spec.Extern {
+	if assumedEnsures && (f.e.thorough || spec.RiskyFrame) && !f.dry && !spec.Extern {
 		// vacuity cover (thorough tier): the callee's postconditions, as assumed here, are consistent with
 		// what is known at this call - the code behind the call stays reachable
 		f.seq++
